@@ -161,6 +161,7 @@ struct HMt : Harness {
     if (kern >= K_DIST_E && kern <= K_DIST_C) other = (int)wr.range(1, 8);          // rows of m2
     if (kern == K_KMEANS || kern == K_KMPP) other = (int)wr.range(1, 6);             // clusters
     if (kern == K_MDC || kern == K_MAXDIS || kern == K_MAXDISF) other = (int)wr.range(1, rows > 1 ? rows : 1);  // selection size
+    if (p.get("mode") == "grid" && (kern == K_MDC || kern == K_MAXDIS || kern == K_MAXDISF) && other > 4) other = 1 + other % 4;  // the slicing logic under test does not depend on the selection size
     p.seti("other", other);
     p.setu("data.seed", wr.next() >> 4);
     p.seti("machine.nproc", threads);  // detected count == requested count: one knob for all kernels
